@@ -84,6 +84,10 @@ func (e *EntryV0) ToPlain(out iface.IPFSLogEntry, _ identityprovider.Interface, 
 		}
 	}
 
+	if e.Clock == nil {
+		return errmsg.ErrClockDeserialization
+	}
+
 	clock := newClock()
 	if err := e.Clock.ToPlain(clock); err != nil {
 		return err
@@ -148,6 +152,10 @@ func (c *Identity) ToPlain(provider identityprovider.Interface) (*identityprovid
 	publicKey, err := hex.DecodeString(c.PublicKey)
 	if err != nil {
 		return nil, errmsg.ErrIdentityDeserialization.Wrap(err)
+	}
+
+	if c.Signatures == nil {
+		return nil, errmsg.ErrIdentitySigDeserialization
 	}
 
 	idSignatures, err := c.Signatures.ToPlain()
@@ -274,6 +282,10 @@ func (c *Entry) ToPlain(out iface.IPFSLogEntry, provider identityprovider.Interf
 	sig, err := hex.DecodeString(c.Sig)
 	if err != nil {
 		return errmsg.ErrSigDeserialization.Wrap(err)
+	}
+
+	if c.Clock == nil {
+		return errmsg.ErrClockDeserialization
 	}
 
 	clock := newClock()
